@@ -5,6 +5,7 @@ use serde_json::Value;
 pub mod common;
 pub mod netsim;
 pub mod c01;
+pub mod c02;
 pub mod c03;
 pub mod c04;
 pub mod c05;
@@ -30,7 +31,7 @@ pub struct Prop {
 }
 
 pub fn registry() -> Vec<Prop> {
-    vec![c01::prop(), c03::prop(), c04::prop(), c05::prop(), c06::prop(), c07::prop(), c08::prop(), c09::prop(), c16::prop(), c17::prop(), c18::prop(), c19::prop(), c20::prop()]
+    vec![c01::prop(), c02::prop(), c03::prop(), c04::prop(), c05::prop(), c06::prop(), c07::prop(), c08::prop(), c09::prop(), c16::prop(), c17::prop(), c18::prop(), c19::prop(), c20::prop()]
 }
 
 /// Helper for replay functions: deserialize the stored case and run it.
